@@ -177,6 +177,23 @@ def main(inp, outp):
                        np.array_equal(a_, b_) and np.array_equal(first, again), "frames/history-eop",
                        f"{pair} at {dspec}: after a conversion under the previous EOP source the result differs by {np.linalg.norm(a_[:3] - b_[:3]):.4g} m "
                        f"from the same conversion made later (and {np.linalg.norm(first[:3] - again[:3]):.4g} m when switching back)", data)
+        # ONE orbit-attached frame used at several dates (the frame follows its orbit): round trip and path independence at each
+        date0 = Date(*job["dates"][0])
+        oref = Orbit([7.3e6, 0.03, 1.1, 0.4, 1.2, 2.1], date0, "keplerian", "EME2000", "Kepler")
+        for orientation in ("QSW", "TNW", None):
+            fl = fr.orbit2frame(f"VfMulti{orientation or 'N'}", oref, orientation, exists_warning=False)
+            for dt_s in (0.0, 60.0, 600.0, 3000.0, -450.0):
+                d = date0 + timedelta(seconds=dt_s)
+                a0 = StateVector(x0, d, "cartesian", "EME2000")
+                there = a0.copy(frame=fl)
+                back = np.asarray(there.copy(frame="EME2000"), float)
+                via = np.asarray(a0.copy(frame="MOD").copy(frame=fl), float)
+                res["evaluations"] += 1
+                clause("one orbit-attached frame used at several dates: round trip is the identity and the path does not matter",
+                       np.linalg.norm(back[:3] - x0[:3]) <= 1e-5 and np.linalg.norm(back[3:] - x0[3:]) <= 1e-8
+                       and np.linalg.norm(via[:3] - np.asarray(there, float)[:3]) <= 1e-5, "frames/history-dates",
+                       f"orientation {orientation}, {dt_s} s after the first date: round trip off by {np.linalg.norm(back[:3] - x0[:3]):.4g} m, "
+                       f"via MOD differs by {np.linalg.norm(via[:3] - np.asarray(there, float)[:3]):.4g} m", {"orientation": orientation, "dt_s": dt_s})
         # an orbit-attached frame registered again under the same name with another orbit
         date = Date(*job["dates"][0])
         o1 = Orbit([7.3e6, 0.03, 1.1, 0.4, 1.2, 2.1], date, "keplerian", "EME2000", "Kepler")
